@@ -23,7 +23,7 @@ fn table(id: &str) -> Option<(RunFn, ReplayFn, Vec<&'static str>)> {
         "C01" => (mon::c01::run as RunFn, mon::c01::replay as ReplayFn, vec!["supply is summed from the decoded coin and pool trees; every tree entry must be explained by an identifier the harness created", "RefSTF's peg/subsidy amounts bound what may be issued at sealing"]),
         "C02" => (mon::c02::run, mon::c02::replay, vec!["RefSTF is the model of what acceptance requires; only the necessary direction is enforced", "batches spending non-first outputs of staking transactions are excluded"]),
         "C03" => (mon::c03::run, mon::c03::replay, vec!["thread interleavings are sampled through pool sizes 1 and 4, not enumerated; per-process hash seeds are sampled through rebuilt HashSets"]),
-        "C04" => (mon::c04::run, mon::c04::replay, vec!["heights >= 1 only (at height 0 the previous header is an artefact)", "at most 6 inputs per spend"]),
+        "C04" => (mon::c04::run, mon::c04::replay, vec!["heights >= 1 only (at height 0 the previous header is an artefact)", "at most 71 inputs per spend"]),
         "C05" => (mon::c05::run, mon::c05::replay, vec!["covenant weights come from RefVM's independent weight function; stdcode length is trusted", "the fee pool before the reward is read from the same block sealed without an action"]),
         "C06" => (mon::c06::run, mon::c06::replay, vec!["honest blocks are those the implementation itself produced through apply_tx_batch + seal"]),
         "C07" => (mon::c07::run, mon::c07::replay, vec!["novasmt's proof verifier and blake3 are trusted; roots are re-derived in a fresh in-memory store"]),
